@@ -1646,6 +1646,11 @@ class SolverCases(CaseTable):
         Dictionary of all model connections.
     var_info : dict
         Dictionary with information about variables (scaling, indices, execution order).
+
+    Attributes
+    ----------
+    _row_sources : dict or None
+        Dictionary mapping iteration coordinates to the source stored by the recorder.
     """
 
     def __init__(self, filename, format_version, giter, prom2abs, abs2prom, abs2meta, conns,
